@@ -337,13 +337,18 @@ class Stack:
                 self.rec.emit(k="out", op="cl_applied", comp=comp)
                 return orig(exc)
             obj.connection_lost = wrapper
+        self.harness_errors = []
         self.rand = RandStub(self.rec, rand)
         sd.random = self.rand  # module attribute used by sd.random.uniform
 
     def rx(self, ev):
         """deliver an abstract rx input now (called from an injected I/O callback)"""
+        try:
+            data = build_sd(ev["es"], ev["rb"], ev["sid"], ev.get("uc", True))
+        except Exception as exc:      # the harness could not even build the datagram: a machinery failure
+            self.harness_errors.append("cannot build %r: %r" % (ev, exc))
+            return
         self.rec.emit(k="in", **ev)
-        data = build_sd(ev["es"], ev["rb"], ev["sid"], ev.get("uc", True))
         try:
             self.prot.datagram_received(data, ADDR[ev["src"]], multicast=ev["mc"])
         except Exception as exc:
@@ -360,6 +365,9 @@ class Stack:
         self.loop.run_to(t_end)
         self.rec.flush_exceptions()
         missed = list(self.loop.missed)
+        if self.harness_errors:
+            from .framework import Machinery
+            raise Machinery("; ".join(self.harness_errors[:3]))
         ev = list(self.rec.ev)          # (closing the loop finalises pending coroutines: their finally blocks still run)
         self.loop.shutdown()
         import random
